@@ -28,6 +28,7 @@ import threading
 
 import mockca
 import vlib
+from ext import kclost
 
 ACC = "accm"
 KEY_POOL = ["ecdsa_p256", "ecdsa_p384", "ed25519", "ecdsa_p521", "ed448", "ecdsa_p256", "ecdsa_p384", "rsa2048"]
@@ -37,7 +38,15 @@ EABS = [{"identifier": "kid-1", "key_hex": "00112233445566778899aabbccddeeff", "
         {"identifier": "kid-2", "key_hex": "ff" * 32, "alg": "HS384"},
         {"identifier": "é京-kid", "key_hex": "0102030405060708", "alg": "HS512"}]
 FAULTS = ["newAccount:refuse", "account:refuse", "keyChange:refuse", "newAccount:drop", "account:drop",
-          "keyChange:drop", "no-location", "no-orders", "hook-pre", "hook-post"]
+          "keyChange:drop", "no-location", "no-orders", "hook-pre", "hook-post",
+          # processed by the CA, the answer never arrives (the CA's record moves, the client sees a cut connection)
+          "keyChange:drop-after-processing", "account:drop-after-processing", "newAccount:drop-after-processing",
+          # refusals that say nothing about the signature
+          "account:refuse-other", "keyChange:refuse-other",
+          # the contact update itself refused (the account queries that precede a roll-over are POSTs to the same URL)
+          "contacts:refuse"]
+# problem types after which `update_account_key` asks again with the current key (acme_proto/account.rs:150-168)
+SIG_REFUSED = ("unauthorized", "malformed", "badSignatureAlgorithm", "badPublicKey")
 WORKERS = 8
 N_HOOKS = 12
 
@@ -137,7 +146,7 @@ def catalogue():
         # key and contacts edited together; the CA accepts the roll-over and refuses the contact update; restart:
         # what the file says must be what the CA was told (the roll-over must have been saved on its own)
         ("rollover-ok-contact-refused-then-restart", two, i0,
-         [S("epA"), S("epB"), {"do": "both", "contacts": b, "key": "ecdsa_p384"}, S("epA", "account:refuse"), R,
+         [S("epA"), S("epB"), {"do": "both", "contacts": b, "key": "ecdsa_p384"}, S("epA", "contacts:refuse"), R,
           S("epA"), S("epB")]),
         ("rsa-and-back", two, i0, [S("epA"), S("epB"), K("rsa2048"), S("epB"), K("ecdsa_p256"), S("epA"), S("epB")]),
         ("both-forget", two, i0, [S("epA"), S("epB"), F("epA"), F("epB"), K("ed25519"), S("epB"), S("epA")]),
@@ -155,6 +164,37 @@ def catalogue():
         # the binding that was removed is put back unchanged
         ("binding-removed-then-same", two, dict(i0, eab=EABS[0]),
          [S("epA"), S("epB"), E(None), C(b), S("epA"), E(EABS[0]), S("epA"), S("epB")]),
+        # a roll-over the CA PROCESSES whose answer is lost: the CA of A holds the new key, the record names the old
+        # one; the following synchronisations of A must recover (5ce05e3 / 1fb1c1a), B is not concerned
+        ("rollover-answer-lost-on-A", two, i0,
+         [S("epA"), S("epB"), K("ecdsa_p384"), S("epA", "keyChange:drop-after-processing"), S("epA"), S("epA"), S("epB")]),
+        ("rollover-answer-lost-then-restart", two, i0,
+         [S("epA"), S("epB"), K("ed25519"), S("epA", "keyChange:drop-after-processing"), R, S("epB"), S("epA"), S("epA")]),
+        ("rollover-answer-lost+contacts", two, i0,
+         [S("epA"), S("epB"), {"do": "both", "contacts": b, "key": "ecdsa_p521"}, S("epA", "keyChange:drop-after-processing"),
+          S("epA"), S("epB"), S("epA")]),
+        ("rollover-answer-lost-on-both", two, i0,
+         [S("epA"), S("epB"), K("ecdsa_p384"), S("epA", "keyChange:drop-after-processing"),
+          S("epB", "keyChange:drop-after-processing"), S("epB"), S("epA"), S("epB")]),
+        # the same loss at the contact update and at the registration
+        ("contact-update-answer-lost", two, i0,
+         [S("epA"), S("epB"), C(b), S("epA", "account:drop-after-processing"), S("epA"), S("epB")]),
+        ("registration-answer-lost", two, i0, [S("epA", "newAccount:drop-after-processing"), S("epA"), S("epB"), S("epA")]),
+        # the roll-over genuinely refused (the CA holds the old key), then accepted
+        ("rollover-refused-then-accepted", two, i0,
+         [S("epA"), S("epB"), K("rsa2048"), S("epA", "keyChange:refuse"), S("epA"), S("epB", "keyChange:refuse-other"), S("epB")]),
+        # the account query that precedes the roll-over refused with an error that says nothing about the signature
+        ("rollover-query-refused-other", two, i0,
+         [S("epA"), S("epB"), K("ecdsa_p384"), S("epA", "account:refuse-other"), S("epA"), S("epB")]),
+        # … and with the error a failed signature verification produces although the signature verifies (a
+        # deactivated account): KNOWN FINDING rollover-probe-at-deactivated-account (one query under the current key)
+        (kclost.FINDING, two, i0,
+         [S("epA"), S("epB"), K("ecdsa_p384"), S("epA", "account:refuse"), S("epA"), S("epB")]),
+        # DOUBLE fault, KNOWN FINDING rollover-lost-then-key-edited: the answer to the roll-over on A is lost and the
+        # key type is edited again before A is synchronised: A never converges again; B is not concerned
+        (kclost.FINDING2, two, i0,
+         [S("epA"), S("epB"), K("ecdsa_p384"), S("epA", "keyChange:drop-after-processing"), K("ed25519"), S("epA"), S("epA"),
+          S("epB")]),
     ]
     return [{"label": l, "endpoints": dict(e), "init": copy.deepcopy(i), "steps": copy.deepcopy(s)} for l, e, i, s in H]
 
@@ -175,6 +215,7 @@ def gen_history(rng):
     steps = []
     configured = dict(eps)
     pending = {k: {"register"} for k in names}     # what the next synchronisation of an endpoint has to do (roughly)
+    lost = set()    # endpoints whose roll-over request may have been processed without an answer, not yet recovered
     for i in range(n):
         if i < 2 and rng.random() < 0.8:
             kind = "sync"
@@ -185,18 +226,27 @@ def gen_history(rng):
                                "forget", "add-endpoint"])
         if kind == "add-endpoint" and all(configured.values()):
             kind = "sync"
+        if kind in ("key", "both") and lost:
+            # ASSUMPTION of these histories: the key type is not edited again while a roll-over whose answer was
+            # lost is unrecovered (lost answer + second key edit = the account is wedged: reported separately)
+            kind = "sync"
         if kind == "sync":
-            ep = names[i] if i < 2 else rng.choice(names)
+            ep = names[i] if i < 2 else rng.choice(sorted(lost) or names)
             fault = None
             if rng.random() < 0.25:
                 # mostly a fault on the request this synchronisation is expected to start with
                 p = pending[ep]
                 first = "newAccount" if "register" in p else "keyChange" if "key" in p else "account" if "contacts" in p else None
                 pool = FAULTS if first is None or rng.random() < 0.2 else \
-                    [first + ":refuse", first + ":drop", "hook-pre", "hook-post"] + (["no-location", "no-orders"] if first == "newAccount" else [])
+                    [first + ":refuse", first + ":drop", first + ":drop-after-processing", "hook-pre", "hook-post"] + \
+                    (["no-location", "no-orders"] if first == "newAccount" else []) + \
+                    ([first + ":refuse-other"] if first != "newAccount" else [])
                 fault = rng.choice(pool)
             if fault is None and configured[ep]:
                 pending[ep] = set()
+                lost.discard(ep)
+            if fault == "keyChange:drop-after-processing" and "key" in pending[ep]:
+                lost.add(ep)
             steps.append(S(ep, fault))
         elif kind == "key":
             cur["key_type"] = other_of(cur["key_type"], KEY_POOL, rng)
@@ -305,6 +355,8 @@ class Run:
             hdr = e.get("hdr", {})
             rk = e["rk"]
             kind = {"newAccount": "newAccount", "keyChange": "keyChange", "account": "accountUpdate"}.get(rk, rk)
+            if rk == "account" and (e.get("payload") or "") == "":
+                kind = "accountProbe"      # POST-as-GET of the account URL: the queries that precede a roll-over
             if rk == "newAccount":
                 target = {"dir": "newAccount", "ep": ep}
             elif rk == "keyChange":
@@ -327,7 +379,9 @@ class Run:
                 kid = hdr.get("kid") or ""
             a = answers.get(e.get("gidx")) or {}
             st = a.get("status", 0)
-            if a.get("drop") or not a:
+            if (a.get("drop") or not a) and e.get("processed"):
+                ans = {"k": "lost"}        # the CA processed the request, the answer never arrived
+            elif a.get("drop") or not a:
                 ans = {"k": "err"}
             elif 200 <= st < 300:
                 if rk == "newAccount":
@@ -340,15 +394,35 @@ class Run:
                 else:
                     ans = {"k": "ok"}
             elif a.get("problem"):
-                ans = {"k": "acme", "type": "accountDoesNotExist" if a["problem"] == "accountDoesNotExist" else "other"}
+                ans = {"k": "acme", "type": "accountDoesNotExist" if a["problem"] == "accountDoesNotExist" else
+                       "sigRefused" if a["problem"] in SIG_REFUSED else "other"}
             else:
                 ans = {"k": "err"}
             reqs.append({"ep": ep, "kind": kind, "target": target, "signer": signer, "kid": kid, "answer": ans})
             raw.append({"kind": kind, "status": st, "problem": a.get("problem"), "sig_ok": e.get("sig_ok"),
                         "kid_known": e.get("kid_ok", False) if hdr.get("jwk") is None else None,
                         "forgotten": e.get("account_forgotten"), "old_key_matches_record": e.get("old_key_matches_record"),
-                        "inner_sig_ok": e.get("inner_sig_ok"), "alg": hdr.get("alg"), "rule": e.get("rule")})
+                        "inner_sig_ok": e.get("inner_sig_ok"), "alg": hdr.get("alg"), "rule": e.get("rule"),
+                        "answered": bool(a) and not a.get("drop"), "processed": bool(e.get("processed"))})
         return reqs, raw
+
+    def ghost(self, st, keys=None):
+        """GHOST of the model (`EpRec.ca`): endpoint -> fingerprint of the key the CA of that endpoint holds for
+        the account the record points to ("" = no account there, amnesia, or a key the account never had)."""
+        out = {}
+        if not (isinstance(st, dict) and "dump" in st):
+            return out
+        keys = keys or self.known_keys(st)
+        for k, v in st["dump"]["endpoints"]:
+            n = unhx(k)
+            held = self.cas[n].accounts.get(unhx(v["account_url"])) if n in self.cas else None
+            fp = ""
+            if held and not held.get("forgotten"):
+                for kk in keys:
+                    if kk["jwk"] == held.get("jwk"):
+                        fp = kk["key_hash"]
+            out[n] = fp
+        return out
 
     # -- steps
     def load(self, idx):
@@ -377,11 +451,19 @@ class Run:
         hooks = [True, True]
         if fault:
             kind, _, how = fault.partition(":")
-            if how == "refuse":
+            if fault == "contacts:refuse":
+                ca.rules.append({"kind": "account", "payload_contains": "\"contact\"", "times": 1, "label": fault,
+                                 "answer": ca.problem(403, "unauthorized", "injected refusal")})
+            elif how == "refuse":
                 ca.rules.append({"kind": kind, "times": 1, "label": fault,
                                  "answer": ca.problem(403, "unauthorized", "injected refusal")})
+            elif how == "refuse-other":
+                ca.rules.append({"kind": kind, "times": 1, "label": fault,
+                                 "answer": ca.problem(403, "userActionRequired", "injected refusal")})
             elif how == "drop":
                 ca.rules.append({"kind": kind, "times": 1, "label": fault, "answer": {"drop": True}})
+            elif how == "drop-after-processing":
+                ca.rules.append({"kind": kind, "times": 1, "label": fault, "answer": {"process": True, "drop": True}})
             elif fault == "no-location":
                 ca.rules.append({"kind": "newAccount", "times": 1, "label": fault,
                                  "answer": {"process": True, "location": None}})
@@ -396,6 +478,7 @@ class Run:
                 hooks = [True, False]
         marks = {n: len(c.log) for n, c in self.cas.items()}
         tables = {n: json.dumps(c.accounts, sort_keys=True, default=str) for n, c in self.cas.items()}
+        ghost_pre = self.ghost(pre)
         r = self.probe.call({"op": "am_sync", "endpoint": ep})
         ca.rules[:] = []
         for f in ("fail-pre", "fail-post"):
@@ -416,6 +499,8 @@ class Run:
                     rec_url = unhx(v["account_url"])
         held = ca.accounts.get(rec_url)
         self.obs.append({"kind": "sync", "step": idx, "ep": ep, "fault": fault, "pre": pre, "post": r,
+                         "ghost_pre": ghost_pre, "ghost_post": self.ghost(r, self.known_keys(r, pre)),
+                         "log_range": (marks[ep], len(ca.log)),
                          "reqs": reqs, "raw": raw, "others": others, "hooks": hooks * (N_HOOKS // 2),
                          "n_http": sum(1 for e in entries if e["kind"] == "req"),
                          "ca_holds": None if held is None else {"jwk": held.get("jwk"), "contacts": held.get("contacts"),
@@ -474,6 +559,16 @@ class Run:
                     ok = ok and self.sync(i, st)
                 if not ok:
                     break
+            # every POST each CA received, as the C04 judge under uncertainty reads it (needs the helper)
+            self.cas_log = {n: list(ca.log) for n, ca in self.cas.items()}
+            # (the MAC of an external account binding is not this check's subject: these CAs hold no MAC keys)
+            self.posts_x = {n: kclost.records_x(self.helper, log, [x for x in kclost.base_records(log) if x["kind"] != "eabInner"])
+                            for n, log in self.cas_log.items()}
+            keys = self.known_keys(*[o.get(k) for o in self.obs for k in ("pre", "post")])
+            for recs_x in self.posts_x.values():
+                for x in recs_x:       # which of the account's keys signed a POST-as-GET of the account URL
+                    if x["outer"] and x["_src"]["rk"] == "account" and (x["_src"].get("payload") or "") == "":
+                        x["_signer_fp"] = next((k["key_hash"] for k in keys if self.verifies(x["_src"], k["jwk"])), "?")
         except Exception as ex:
             import traceback
             self.errors.append("harness exception: %s\n%s" % (ex, traceback.format_exc()[-1500:]))
@@ -505,6 +600,25 @@ def mshape(st):
     return {"endpoints": [[unhx(k), rec_shape(v)] for k, v in d["endpoints"]],
             "contacts_hash": inf["contacts_hash"], "current_key_hash": inf["current"]["key_hash"],
             "past_key_hashes": [k["key_hash"] for k in inf["past"]], "eab_hash": inf["eab_hash"]}
+
+
+def with_ghost(acct, ghost):
+    """The account in the model's vocabulary + GHOST: the key each CA holds (`EpRec.ca.key`)."""
+    a = dict(acct)
+    a["endpoints"] = [[n, dict(r, ca={"key": (ghost or {}).get(n, ""), "contacts": ""})] for n, r in acct["endpoints"]]
+    return a
+
+
+def without_ghost(acct):
+    if not isinstance(acct, dict):
+        return acct
+    a = dict(acct)
+    a["endpoints"] = [[n, {k: v for k, v in r.items() if k != "ca"}] for n, r in acct.get("endpoints", [])]
+    return a
+
+
+def ghost_of(acct):
+    return {n: (r.get("ca") or {}).get("key", "") for n, r in (acct or {}).get("endpoints", [])} if isinstance(acct, dict) else {}
 
 
 class Maps:
@@ -648,8 +762,8 @@ def extend(ctx, helper, root, hists=None, n_random=None):
                 continue
             if o["kind"] == "sync":
                 o["min"] = {"op": "c11_sync_multi", "variant": "current", "endpoint": o["ep"],
-                            "account": mshape(o["pre"]), "answers": [q["answer"] for q in o["reqs"]],
-                            "hooks": o["hooks"]}
+                            "account": with_ghost(mshape(o["pre"]), o["ghost_pre"]),
+                            "answers": [q["answer"] for q in o["reqs"]], "hooks": o["hooks"]}
             else:
                 filed = o["dec_pre"]
                 key_changed = False
@@ -663,7 +777,23 @@ def extend(ctx, helper, root, hists=None, n_random=None):
             min_.append(o["min"])
             where.append(o)
     for o, v in zip(where, vlib.model(min_) if min_ else []):
+        if isinstance(v, dict) and "account" in v:
+            # the GHOST members of the model's records are compared on their own (synchronisations, below)
+            o["mghost"] = ghost_of(v.get("account"))
+            v = dict(v, account=without_ghost(v.get("account")))
+            if "saved" in v:
+                v["saved"] = without_ghost(v["saved"])
         o["mout"] = v
+
+    # ---- every POST every CA received, through the C04 judge under uncertainty (Spec.C04Lost)
+    jx, jwhere = [], []
+    for r in runs:
+        for n, recs_x in sorted(getattr(r, "posts_x", {}).items()):
+            jx.append(kclost.judge_input(recs_x))
+            jwhere.append((r, n, recs_x))
+    for (r, n, recs_x), v in zip(jwhere, vlib.model(jx) if jx else []):
+        r.posts_verdict = getattr(r, "posts_verdict", {})
+        r.posts_verdict[n] = v
 
     # ---- compare and judge
     for h, r in zip(hists, runs):
@@ -743,6 +873,16 @@ def extend(ctx, helper, root, hists=None, n_random=None):
                 problems.append("the real code sent %d more requests than the model" % mo["answers_left"])
             if canon(mo.get("account")) != canon(real):
                 problems.append("the account in memory afterwards differs from the model's (some endpoint record or a shared field)")
+            # GHOST: the key the CA of e holds for the account the record points to (compared when the real CA has
+            # a live account there whose key is one of the account's keys, and so it was before)
+            gpost, gpre, mg = o["ghost_post"].get(e, ""), o["ghost_pre"].get(e, ""), o.get("mghost", {}).get(e, "")
+            pre_url = records(mshape(o["pre"])).get(e, {}).get("account_url", "")
+            if gpost and (gpre or not pre_url):
+                ctx.count("M:ghost:compared")
+                if gpost != gpre:
+                    ctx.count("M:ghost:moved" + (":without-2xx" if any(q["answer"]["k"] == "lost" for q in o["reqs"]) else ""))
+                if mg != gpost:
+                    problems.append("GHOST: the CA of %s holds key %s, the model's ghost says %s" % (e, gpost[:12], mg[:12] or "(none)"))
             saved = mo.get("saved")
             file_same = (o["pre"].get("file_hex") == post.get("file_hex"))
             if saved is None:
@@ -780,10 +920,52 @@ def extend(ctx, helper, root, hists=None, n_random=None):
                                    "the one the account had" % (e, n))
                 if shared(o["dec_post"]) != shared(pre):
                     why.append("the file written during the synchronisation of %s holds other shared fields" % e)
+            # every POST of this synchronisation verifies under the key on record — except, after a keyChange
+            # request that got no answer, up to the first request that is answered (Spec.C04Lost; one known finding)
+            pv = getattr(r, "posts_verdict", {}).get(e)
+            px = getattr(r, "posts_x", {}).get(e)
+            if trusted and pv is not None and px is not None:
+                lo, hi = o["log_range"]
+                gidx_of = {id(ev): i for i, ev in enumerate(r.cas_log[e])} if hasattr(r, "cas_log") else {}
+                answers_e = {ev["for"]: ev for ev in r.cas_log[e] if ev["kind"] == "ans"} if hasattr(r, "cas_log") else {}
+                for i, (x, ok) in enumerate(zip(px, pv["req_ok"])):
+                    pos = gidx_of.get(id(x["_src"]))
+                    if pos is None or not (lo <= pos < hi):
+                        continue
+                    if pv["window"][i] and x["outer"] and not pv["strict_ok"][i] and ok:
+                        ctx.count("M:lost:admitted-by-window")
+                    if ok:
+                        continue
+                    src = x["_src"]
+                    if src.get("account_forgotten") or not x.get("kid_ok", True) and x["kind"] == "other":
+                        continue        # amnesia / an account the CA never had: judged by the clauses below
+                    cur_fp = post["info"]["current"]["key_hash"]
+                    if h.get("label") == kclost.FINDING2 and kclost.is_lost_then_edited_request(
+                            lambda y: y.get("_signer_fp", "?") != "?", px, i):
+                        ctx.count("M:lost:known-finding2-request")
+                        ctx.violation("%s, synchronisation of %s: POST to %s does not verify under the key on record: the CA "
+                                      "holds the key of a roll-over whose answer was lost, the key type was edited again, the "
+                                      "client signs with the recorded and with the current key" % (name, e, src.get("path")),
+                                      rep, klass=kclost.FINDING2)
+                        continue
+                    if kclost.is_finding_request(lambda y: y.get("_signer_fp") == cur_fp, px, i, answers_e):
+                        ctx.count("M:lost:known-finding-request")
+                        ctx.violation("%s, synchronisation of %s: POST to %s does not verify under the key on record: the "
+                                      "account query signed by the current key, after the query signed by the recorded key was "
+                                      "refused although it verified" % (name, e, src.get("path")), rep, klass=kclost.FINDING)
+                        continue
+                    why.append("POST #%d of the CA of %s (%s to %s, alg %s) %s: %s" % (
+                        i, e, x["kind"], src.get("path"), x.get("alg"),
+                        "does not verify under the key on record, nor (inside the window of an unanswered keyChange) under the "
+                        "other key of that exchange" if pv["window"][i] else
+                        "is not a valid, fresh, correctly bound JWS under the key on record (no keyChange request is unanswered)",
+                        {k: x[k] for k in ("url_ok", "nonce_issued", "nonce_reused", "kid_ok", "sig_ok", "sig_ok_alt")}))
             if trusted:
                 for q, x in zip(o["reqs"], o["raw"]):
                     if q["kind"] != "keyChange" or x["rule"]:
                         continue
+                    if pv is not None and x.get("sig_ok") is False:
+                        continue        # judged above (with the window)
                     if not x["kid_known"]:
                         why.append("a key roll-over names an account (%s) the CA of %s never created" % (q["kid"], e))
                     elif not x["forgotten"]:
